@@ -14,6 +14,7 @@ ReturnError ↦ check_key(sender): the Err(e) edge returns Err(Status(TooManyReq
 "wait-nanos", e.wait_time_from(clock.now()).as_nanos())) and cannot reach inner.call, the Ok edge
 proceeds; inner.call occurs exactly once and only behind those edges; a missing sender is an internal
 error before anything else.
+One layer out: clones share the keyed limiter and clock, poll_ready only delegates, PeerId equality/hash are derived.
 """
 TRUSTED = ["governor's GCRA quota arithmetic and keyed state store", "governor NotUntil::wait_time_from is positive for a refused cell"]
 NOT_DECIDED = ["the numeric quota bound over time windows (governor)", "positivity of the wait hint", "concurrent arrival interleavings inside governor"]
